@@ -1,0 +1,16 @@
+//go:build verif
+
+// Contracts for package tcp (comment-only; read by /verif/govc).
+
+package tcp
+
+//@ struct dialer
+//@   lock lock level 50
+//@   guarded_by lock: maxRecvSize
+//@   immutable: addr proto hs
+//@
+//@ struct listener
+//@   lock lock level 50
+//@   guarded_by lock: maxRecvSize
+//@   immutable: addr proto handshaker closeq
+//@   racy: l bound because written by Listen with no lock and read by Accept/Address/Close; no lock discipline exists for them in the code (outside the guard sweep)
